@@ -119,8 +119,8 @@ PROPS = {
     },
     "C13": {
         "module": "BiscuitModel.Props.C13",
-        "streams": ["snapshot"],
-        "level_text": "Lean 4 theorems: intern_resolve (an interned string resolves to itself), insert_stable (earlier indices keep their meaning), restore_symbols and restore_keys (re-inserting, one by one, the symbol table and the public-key table a snapshot stores rebuilds exactly the tables the snapshot was written against - for every table produced by interning, snapshot_table_wf - so every symbol and key index in the snapshot keeps its meaning), key_map_restored (the restored key-to-blocks map registers every block, so a scope naming the key of a LATER block trusts it). Tie: for every generated token + authorizer (third-party blocks with their own symbols and keys, scopes naming keys of later blocks), snapshot taken before run, after run and after a failed run, raw and base64: the restored authorizer's decision and query answers are compared with the compiled model's, and an implementation-only oracle compares original and restored authorizer (Display: facts per origin, rules, checks, policies; limits; counters; authorize; queries), the builder snapshot round trip (dump_code, authorize) and the saved-policies round trip.",
+        "streams": ["snapshot", "authz"],
+        "level_text": "Lean 4 theorems: intern_resolve (an interned string resolves to itself), insert_stable (earlier indices keep their meaning), restore_symbols and restore_keys (re-inserting, one by one, the symbol table and the public-key table a snapshot stores rebuilds exactly the tables the snapshot was written against - for every table produced by interning, snapshot_table_wf - so every symbol and key index in the snapshot keeps its meaning), key_map_restored (the restored key-to-blocks map registers every block, so a scope naming the key of a LATER block trusts it). Tie: for every generated token + authorizer (third-party blocks with their own symbols and keys, scopes naming keys of later blocks), snapshot taken before run, after run and after a failed run, raw and base64: the restored authorizer's decision and query answers are compared with the compiled model's, and an implementation-only oracle compares original and restored authorizer (Display: facts per origin, rules, checks, policies; limits; counters; authorize; queries), the builder snapshot round trip (dump_code, authorize) and the saved-policies round trip. The authz stream adds, for every generated token and authorizer (third-party blocks, key scopes on authorizer rules, checks and policies), the outcome of the authorizer restored from a snapshot taken before anything ran: it must be the outcome of the authorizer itself, which is the outcome of the model.",
         "level_note": "Partial: that the restored authorizer BEHAVES like the original is established by the stream (the theorems give equality of the tables everything is expressed in, not invariance of evaluation under re-interning). Known finding: saved policies that name a public key cannot be restored (no key table in the AuthorizerPolicies message).",
         "rule": "snapshot stream: corpus (three fixed findings) first; authz-style cases x {before, after, after_failed} x {raw, base64}; non-trivial = restore succeeded on a token with at least two blocks; distinct = distinct case JSON",
         "trusted_base": ["harness/src/s_snapshot.rs", "tools/props.py oracle_snapshot", "lean/Codec.lean, lean/Driver.lean"],
@@ -559,6 +559,9 @@ def oracle_print(case, impl):
         return "printed %s parses back to a different program: %r reprinted as %r" % (case["kind"], impl.get("text", "")[:300], impl.get("reprinted", "")[:300])
     if impl.get("reloaded_same") is False:
         return "print_block_source differs after a serialization round trip"
+    for name, t in (impl.get("paths") or {}).items():
+        if t != impl.get("text") and norm_sets(t) != norm_sets(impl.get("text", "")):
+            return "print_block_source of the same block differs (%s): %r instead of %r" % (name, t[:300], impl.get("text", "")[:300])
     return None
 
 
